@@ -14,4 +14,4 @@ for p in $("$HERE/bin/verifcheck" -list); do
   out=$("$HERE/bin/verifcheck" -repo "$SCR/repo" -verif "$HERE" -prop $p -evidence "$SCR/ev/$p.json" 2>&1); rc=$?
   if [ $rc != 0 ]; then bad="$bad $p(rc=$rc:$(echo "$out" | grep -o 'violated: [^ ]*' | sed 's/violated: //' | cut -d/ -f1-3 | sort -u | head -3 | tr '\n' ','))"; fi
 done
-echo "$(basename $(dirname $PATCH))/$(basename $PATCH):${bad:- all silent}"
+echo "$(basename $(dirname $(dirname $PATCH)))/$(basename $(dirname $PATCH))/$(basename $PATCH):${bad:- all silent}"
